@@ -101,7 +101,11 @@ impl Statement {
                 // TODO: Handle array values.
                 if !matches!(rhe, Update { .. }) {
                     if let Some(value) = rhe.value() {
-                        env.add_variable(var, value);
+                        // Only local variables are in SSA form. A signal or component
+                        // may be assigned in several branches, with different values.
+                        if meta.type_knowledge().is_local() {
+                            env.add_variable(var, value);
+                        }
                         result = result || meta.value_knowledge_mut().set_reduces_to(value.clone());
                     }
                 }
